@@ -16,19 +16,21 @@ Inductive opoint : Set :=
 | OP_notification_mac   (* notification.go toNotification: Notification.Addr.MAC *)
 | OP_findbymac_mac      (* hosttable.go Session.FindByMAC: Addr.MAC of every element *)
 | OP_ipaddrs_mac        (* session.go Session.IPAddrs: Addr.MAC of every element *)
+| OP_whois_mac          (* arp_spoofer arp.go Handler.WhoIs: Addr.MAC *)
 | OP_findrouter         (* icmp_spoofer icmp6radv.go Handler6.FindRouter: Router.Addr.MAC, Options.* slices, Prefixes *)
 | OP_mdns_entries       (* dns_naming mdns.go ProcessMDNS: the returned []IPNameEntry vs the cached ones (putMDNSCache) *)
 | OP_dns_entry          (* dns_naming dns.go ProcessDNS, dnstable.go DNSFind: DNSEntry.Copy() *)
 .
 
-(* transcription of the Go code: does the output point copy?  As found in /repo the first five shared the
+(* transcription of the Go code: does the output point copy?  As found in /repo the first six shared the
    tables' storage; repaired by 731d6b1 (toNotification), 2a8e70e (FindByMAC), 12c4150 (IPAddrs),
-   66fd956 (FindRouter, NewOptions.Copy), 1fa6803 (putMDNSCache keeps its own copies). *)
+   66fd956 (FindRouter, NewOptions.Copy), 1fa6803 (putMDNSCache keeps its own copies), d9dd9af (WhoIs). *)
 Definition out_copies (k : opoint) : bool :=
   match k with
   | OP_notification_mac => true    (* addr.MAC = CopyMAC(addr.MAC) *)
   | OP_findbymac_mac => true       (* Addr{MAC: CopyMAC(v.MACEntry.MAC)} *)
   | OP_ipaddrs_mac => true         (* addr.MAC = CopyMAC(addr.MAC) *)
+  | OP_whois_mac => true           (* Addr{MAC: CopyMAC(host.MACEntry.MAC)} (d9dd9af) *)
   | OP_findrouter => true          (* c.Options = r.Options.Copy(), c.Addr.MAC = CopyMAC(..) *)
   | OP_mdns_entries => true        (* the cache clones the entries and their MACs *)
   | OP_dns_entry => true           (* deep copy of the record maps *)
